@@ -131,6 +131,8 @@ class Cond(object):
     __slots__ = ("ctx", "node", "key", "alias", "forms", "callforms")
 
     def __init__(self, ctx, node):
+        # a named bool local (`const bool single = !a && b;  if (!single)`) is the test it was initialised with
+        node = facts.inline_locals(ctx.f, node, kinds=("bool",))
         self.ctx, self.node = ctx, node
         self.alias = dict(ctx.alias)
         self.forms = dict(ctx.forms)
@@ -366,11 +368,53 @@ class Fx(object):
                     tot = self._env.get("tot:" + nm)
                     if tot is not None and not self._env.get("rest:" + nm):
                         return tot - self._env.get("s:" + nm, Form()) - self._env.get("t:" + nm, Form())
+            if k == "CallExpr" and e.get("cname") == "accumulate" and len(c) == 5:
+                r = self.accumulate_form(ctx, e)
+                if r is not None:
+                    return r
             r = self.call_form(ctx, e)
             if r is not None:
                 return r
             return atom(t)
         return atom(self.txt(ctx, e))
+
+    def accumulate_form(self, ctx, e):
+        """std::accumulate(C.begin(), C.end(), init, [](acc, elem) { return acc + g(elem); })  ==  init + SUM over C of g"""
+        c = e["c"]
+
+        def it_call(x):
+            x = facts.strip_all(x)
+            while x["k"] in ("CXXConstructExpr", "MaterializeTemporaryExpr", "CXXBindTemporaryExpr", "ImplicitCastExpr") and len(x.get("c", [])) == 1:
+                x = facts.strip_all(x["c"][0])
+            return x if x["k"] == "CXXMemberCallExpr" else None
+        b, en = it_call(c[1]), it_call(c[2])
+        if b is None or en is None or b.get("cname") not in ("begin", "cbegin") or en.get("cname") not in ("end", "cend"):
+            return None
+        tb, te = self.txt(ctx, b), self.txt(ctx, en)
+        cont = tb.rsplit(".", 1)[0]
+        if te.rsplit(".", 1)[0] != cont:
+            return None
+        lam = [x for x in facts.walk(c[4]) if x["k"] == "LambdaExpr" and x.get("lambda")]
+        g = self.db.fn(lam[0]["lambda"]) if len(lam) == 1 else None
+        if g is None or not g.get("body") or len(g.get("params", ())) != 2 or lam[0].get("c"):
+            return None         # only capture-less binary lambdas
+        sub = Ctx(self, g, None, ctx.this_txt, ctx.depth + 1, ctx.cls)
+        sub.forms[g["params"][0]["var"]] = Form()       # the running total: the lambda's result minus it is the per-element term
+        sub.alias[g["params"][1]["var"]] = "$e"
+        try:
+            env = self.exec_fn(sub)
+        except Opaque as ex:
+            self.trace.append("opaque accumulate lambda at line %s: %s" % (e.get("l"), ex))
+            return None
+        d = env.get("§ret")
+        if d is None:
+            return None
+        init = self.form(ctx, c[3])
+        if d.is_zero():
+            return init
+        if d.is_const():
+            return init + atom(cont + ".size()").scale(d.k)
+        return init + Form(0, None, None, [(1, cont, d)])
 
     # ---- calls returning sizes
     def resolve(self, ctx, n):
@@ -682,7 +726,23 @@ class Fx(object):
         results = []
         for vals, stmts, _closed in groups:
             stmts = [x for x in stmts if x["k"] != "BreakStmt"]
-            e2 = self.exec_list(ctx, stmts, env)
+            # the arm runs under `scrutinee == label` (recorded on the operations it logs, like an if would)
+            gnode = None
+            for v in [v_ for v_ in vals if v_ is not None]:
+                eq = {"k": "BinaryOperator", "op": "==", "id": -4000 - v, "c": [scrut, {"k": "IntegerLiteral", "v": v, "id": -5000 - v, "c": []}]}
+                gnode = eq if gnode is None else {"k": "BinaryOperator", "op": "||", "id": -6000 - v, "c": [gnode, eq]}
+            pushed = False
+            if gnode is not None and None not in vals:
+                try:
+                    self.condstack.append((Cond(ctx, gnode), True))
+                    pushed = True
+                except Opaque:
+                    pushed = False
+            try:
+                e2 = self.exec_list(ctx, stmts, env)
+            finally:
+                if pushed:
+                    self.condstack.pop()
             if None in vals:
                 default_env = e2
                 vals = [v for v in vals if v is not None]
